@@ -248,6 +248,21 @@ func ldata(tag int) cemi.LData {
 func reqMsg(tag int) cemi.Message { return &cemi.LDataReq{LData: ldata(tag)} }
 func indMsg(tag int) cemi.Message { return &cemi.LDataInd{LData: ldata(tag)} }
 
+// inMsg: what the gateway tunnels to the client for telegram `tag`. On a raw tunnel a fraction of the telegrams are
+// confirmations and requests (the message kind is a function of the tag): the client hands every cEMI message to
+// the application alike. The group layer surfaces indications only, so group plans stick to those.
+func inMsg(tag int, group bool) cemi.Message {
+	switch {
+	case group:
+		return indMsg(tag)
+	case tag%7 == 3 || tag%16 == 8:
+		return &cemi.LDataCon{LData: ldata(tag)}
+	case tag%11 == 5:
+		return &cemi.LDataReq{LData: ldata(tag)}
+	}
+	return indMsg(tag)
+}
+
 func tagOf(m cemi.Message) int {
 	var l *cemi.LData
 	switch v := m.(type) {
@@ -549,7 +564,7 @@ func (s *Sim) gwStep(g GwStep) {
 			if ch == s.curChan && seq == s.expIn && !s.Plan.Cfg.TCP {
 				s.expIn = (s.expIn + 1) % 256
 			}
-			svc = &knxnet.TunnelReq{Channel: uint8(ch), SeqNumber: uint8(seq), Payload: indMsg(g.Tag + k)}
+			svc = &knxnet.TunnelReq{Channel: uint8(ch), SeqNumber: uint8(seq), Payload: inMsg(g.Tag+k, s.Plan.Group)}
 		case "ack":
 			svc = &knxnet.TunnelRes{Channel: uint8(ch), SeqNumber: uint8(g.Abs), Status: knxnet.ErrCode(g.Status)}
 		case "hbres":
